@@ -222,6 +222,26 @@ impl Model {
         !self.adopt.iter().any(|(&(a, b), &c)| c > 0 && (a == o || b == o))
     }
 
+    /// every stored handle is recorded as an adoption, and nothing else is (C09's
+    /// precondition)
+    pub fn fully_recorded(&self) -> bool {
+        for (&o, ob) in &self.objs {
+            if !ob.alive {
+                continue;
+            }
+            let mut held: BTreeMap<Id, u32> = BTreeMap::new();
+            for &(_, t) in &ob.slots {
+                *held.entry(t).or_insert(0) += 1;
+            }
+            for (&t, &n) in &held {
+                if *self.adopt.get(&(o, t)).unwrap_or(&0) != n {
+                    return false;
+                }
+            }
+        }
+        self.p_ok
+    }
+
     pub fn recompute_p(&mut self) {
         let ok = self.adopt.iter().all(|(&(a, b), &c)| c <= self.held(a, b));
         self.p_ok = ok;
